@@ -8,6 +8,16 @@ L3: the property statement evaluated directly on the implementation with numpy (
     destination population is integrated out (1e-11), support of the deposit (the two grid points bracketing the mixed frequency), pure split = copy, identity at
     proportion 0, every simplex vector accepted, every vector summing above 1 rejected, removal = weighted sum,
     reorder = transpose and its inverse.
+Round 6: the density as an array OBJECT.  Every one of the 17 functions, remove_pop, filter_pops, reorder_pops and the three
+    splits is run on EVERY run (fixed lists, nothing by chance) on transposed views obtained through `reorder_pops` itself
+    (Fortran order, both rotations, first two / last two populations swapped — d = 3: all five permutations), on strided,
+    reversed and Fortran-ordered arrays, with pairwise different extents and an own grid per population in two opposite orders;
+    L3: same result bit for bit as on a C-contiguous copy (removals: a few ulp), the argument treated as the docstring says
+    (pulses "Alters phi in place and returns the new version": the array that was passed holds the new version AND it is
+    returned, nothing outside the view is written; everything else: argument untouched, result a new array), then all clauses
+    (marginals, mass, mixture frequency by point densities, identity at 0, simplex acceptance / rejection) on THAT result;
+    reorder_pops followed by a pulse = the corresponding pulse followed by reorder_pops.
+    K: op `fnview` — flat memory + offset / strides / shape against the model's `applyInPlace` (memory afterwards and returned array).
 """
 import math, itertools, re, sys
 from fractions import Fraction
@@ -184,15 +194,24 @@ def mixed_freq(grids, coefs, shape):
         ad = ad + coefs[m] * np.asarray(grids[m])[tuple(sl)]
     return ad
 
-def inp_fn(name, fs, grids, phi):
-    return dict(op='fn', fn=name, fs=[float(x) for x in fs], grids=[np.asarray(g).tolist() for g in grids],
-                shape=list(phi.shape), phi=np.asarray(phi).ravel().tolist())
+def inp_fn(name, fs, grids, phi, layout=None):
+    d = dict(op='fn', fn=name, fs=[float(x) for x in fs], grids=[np.asarray(g).tolist() for g in grids],
+             shape=list(np.shape(phi)), phi=np.asarray(phi).ravel().tolist())
+    if layout is not None:
+        d['layout'] = layout_json(layout)
+    return d
 
-def call_impl(ctx, name, fs, grids, phi):
+def call_impl(ctx, name, fs, grids, phi, layout=None):
+    """the function on a fresh C-contiguous copy of `phi` (layout None) or on an array object with the same entries and
+    another memory layout (round 6, `make_view`); returns (a private copy of the returned array, exception)"""
     PM = ctx['dadi'].PhiManip
     try:
-        out = getattr(PM, name)(np.array(phi, dtype=float, copy=True), *fs, *[np.array(g, dtype=float) for g in grids])
-        return np.asarray(out), None
+        if layout is None:
+            arg = np.array(phi, dtype=float, copy=True)
+        else:
+            arg, _ = make_view(ctx, phi, layout)
+        out = getattr(PM, name)(arg, *fs, *[np.array(g, dtype=float) for g in grids])
+        return np.array(out, dtype=float, copy=True), None
     except Exception as e:
         return None, e
 
@@ -200,19 +219,24 @@ def same_grid(grids):
     return all(len(g) == len(grids[0]) and np.array_equal(g, grids[0]) for g in grids)
 
 # ------------------------------------------------------------------------------------------ one call: K + L3
-def case_fn(chk, ctx, name, fs, grids, phi, do_k=True, kinds=None):
+def case_fn(chk, ctx, name, fs, grids, phi, do_k=True, kinds=None, layout=None, pre=None):
+    """`layout`: the function is called on an array with the entries of `phi` in that memory layout (round 6); `pre`: the
+    (result, exception) of that very call when the caller has already made it"""
     d, dest = SPEC[name]
     driver = ctx['driver']
-    inp = inp_fn(name, fs, grids, phi)
+    inp = inp_fn(name, fs, grids, phi, layout)
     grids = [np.asarray(g, dtype=float) for g in grids]
     phi = np.asarray(phi, dtype=float)
-    out, exc = call_impl(ctx, name, fs, grids, phi)
+    out, exc = pre if pre is not None else call_impl(ctx, name, fs, grids, phi, layout)
     tot = exact_sum(fs)
     nonneg = all(x >= 0 for x in fs)
     sg = same_grid(grids)
-    gtag = '' if sg else ':distinct_grids'
+    gtag = ('' if sg else ':distinct_grids') + ('' if layout is None else ':view')
+    if layout is not None:
+        chk.stat('layout:' + layout_tag(layout))
     chk.stat('fn:' + name); chk.stat('grids:' + ('same' if sg else 'distinct'))
-    chk.l3((name, 'same' if sg else 'distinct', (kinds or {}).get('props'), tot > 1, tot == 1, bool(all(x == 0 for x in fs))))
+    chk.l3((name, 'same' if sg else 'distinct', (kinds or {}).get('props'), tot > 1, tot == 1, bool(all(x == 0 for x in fs)),
+            None if layout is None else layout_tag(layout)))
     # ---- K
     if do_k and driver is not None and driver.ok() and 8e-16 * max(grid_condition(g) for g in grids) > 0.1 * RTOL_K:
         # round-off of the mixed frequency (a few ulp) is amplified beyond the comparison tolerance by this grid
@@ -322,7 +346,7 @@ def case_fn(chk, ctx, name, fs, grids, phi, do_k=True, kinds=None):
                 chk.fail('pulse_zero:%s%s' % (name, gtag), '%s with proportions 0 is not the identity: differs by %.3g (scale %.3g)' % (name, e0, scale), inp)
             chk.stat('l3:pulse_zero')
 
-def case_spike(chk, ctx, name, fs, grids, shape, cells):
+def case_spike(chk, ctx, name, fs, grids, shape, cells, layout=None):
     """pulse of a point mass: a density concentrated in ONE cell (frequencies x_1..x_d) must end up, in the same line of the
     destination axis, on the two grid points bracketing the documented mixture frequency Σ c_m x_m, with linear-interpolation
     weights (Σ_k out_k z_k = adz Σ_k out_k), and nowhere else."""
@@ -330,14 +354,14 @@ def case_spike(chk, ctx, name, fs, grids, shape, cells):
     grids = [np.asarray(g, dtype=float) for g in grids]
     if exact_sum(fs) > 1 or any(x < 0 for x in fs):
         return
-    sg = same_grid(grids); gtag = '' if sg else ':distinct_grids'
+    sg = same_grid(grids); gtag = ('' if sg else ':distinct_grids') + ('' if layout is None else ':view')
     coefs = full_coefs(d, dest, fs)
     zz = grids[dest]
     for cell in cells:
         phi = np.zeros(shape); phi[tuple(cell)] = 1.0
-        inp = inp_fn(name, fs, grids, phi)
-        out, exc = call_impl(ctx, name, fs, grids, phi)
-        chk.l3((name, 'spike', 'same' if sg else 'distinct'))
+        inp = inp_fn(name, fs, grids, phi, layout)
+        out, exc = call_impl(ctx, name, fs, grids, phi, layout)
+        chk.l3((name, 'spike', 'same' if sg else 'distinct', None if layout is None else layout_tag(layout)))
         chk.stat('l3:spike')
         if exc is not None:
             if not (isinstance(exc, ValueError) and 'non-sensible' in str(exc)):
@@ -818,6 +842,436 @@ def case_cells(chk, ctx, rng, ncells):
                          % (float(phi[i]), float(ad[i]), float(mass)), inp)
             chk.stat('l3:cell_mass:' + kinds[i])
 
+# ------------------------------------------------------------------------------------------ round 6: memory layouts, rectangular densities
+# "for all densities, all grids" quantifies over array OBJECTS: a density that is a transposed / Fortran-ordered / strided /
+# reversed view (what `reorder_pops` returns, what slicing returns) is the same density, and populations may live on grids of
+# different lengths.  Every public function is run on such inputs on EVERY run (fixed list of layouts and of rectangular
+# shapes, nothing left to chance), compared with the same call on a C-contiguous copy, and the clauses of the property are
+# evaluated on the result.  What each docstring promises about the argument is asserted as written:
+#   pulses  "Alters phi in place and returns the new version."  -> the array object that was passed holds the new version
+#            afterwards AND the returned array is the new version (never silently neither), nothing outside the view is touched;
+#   the others "Returns a new .. phi"                            -> the argument is not modified.
+SENTINEL = -12345.5
+
+def layout_json(layout):
+    return [layout[0]] + [[int(x) for x in layout[1]]] if len(layout) > 1 else [layout[0]]
+
+def layout_tag(layout):
+    return layout[0] + ('' if len(layout) == 1 else '[' + ','.join(str(int(x)) for x in layout[1]) + ']')
+
+def perm_layouts(d, rng=None):
+    """axis orders as 1-based `neworder` of reorder_pops: Fortran order, both rotations, first two swapped, last two swapped
+    (d = 3: all five non-identity permutations) and, for d >= 4, one more drawn from the run's generator"""
+    ident = list(range(1, d + 1))
+    cands = [ident[::-1], ident[1:] + ident[:1], ident[-1:] + ident[:-1], [2, 1] + ident[2:] if d >= 2 else ident,
+             ident[:-2] + [d, d - 1] if d >= 2 else ident]
+    if d >= 4 and rng is not None:
+        cands.append([int(x) + 1 for x in rng.permutation(d)])
+    out = []
+    for c in cands:
+        if c != ident and c not in out:
+            out.append(c)
+    return out
+
+def all_layouts(d, rng=None):
+    ls = [('reorder', p) for p in perm_layouts(d, rng)]
+    ls += [('strided',), ('flipped',)]
+    if d >= 2:
+        ls.append(('fortran',))
+    return ls
+
+def make_view(ctx, phi, layout):
+    """an array object whose entries are those of `phi` but whose memory layout is not C-contiguous.
+       ('reorder', neworder): what PhiManip.reorder_pops(base, neworder) returns for the C-contiguous `base` holding the
+                              populations in the order that makes the result equal to phi (the multi-step sequence
+                              reorder_pops -> pulse / split / removal of the Demes-built models);
+       ('strided',):  every second entry of a larger array, starting at 1 (offset, non-unit strides; the rest holds SENTINEL);
+       ('flipped',):  negative strides along every axis;
+       ('fortran',):  a column-major array (owns its memory).
+       returns (view, base) — base owns the memory."""
+    phi = np.asarray(phi, dtype=float)
+    d = phi.ndim
+    kind = layout[0]
+    if kind == 'reorder':
+        p = [int(x) - 1 for x in layout[1]]
+        base = np.ascontiguousarray(phi.transpose(np.argsort(p)))
+        v = None
+        try:
+            v = np.asarray(ctx['dadi'].PhiManip.reorder_pops(base, [x + 1 for x in p]))
+        except Exception:
+            pass
+        if v is None or v.shape != phi.shape or not np.array_equal(v, phi) or not np.shares_memory(v, base):
+            v = base.transpose(p)           # reorder_pops is judged by case_reorder; here only the layout matters
+    elif kind == 'strided':
+        base = np.full(tuple(2 * n + 1 for n in phi.shape), SENTINEL)
+        sl = tuple(slice(1, None, 2) for _ in range(d))
+        base[sl] = phi; v = base[sl]
+    elif kind == 'flipped':
+        sl = tuple(slice(None, None, -1) for _ in range(d))
+        base = np.ascontiguousarray(phi[sl]); v = base[sl]
+    elif kind == 'fortran':
+        base = np.array(phi, order='F', copy=True); v = base
+    elif kind == 'contiguous':
+        base = np.array(phi, order='C', copy=True); v = base
+    else:
+        raise ValueError(layout)
+    assert v.shape == phi.shape and np.array_equal(v, phi)
+    return v, base
+
+def same_bits(a, b):
+    return a is not None and b is not None and np.shape(a) == np.shape(b) and np.array_equal(a, b, equal_nan=True)
+
+def documented_inplace(fn):
+    return bool(re.search(r'alters\s+phi\s+in\s+place', fn.__doc__ or '', re.I))
+
+def rect_shapes(d, tier, rot):
+    """pairwise different extents (so that no two loop bounds / grids / index ranges can be exchanged unnoticed), in two
+    opposite orders (a bound that is too short is silent, one that is too long raises)"""
+    base = {'quick': {1: [7], 2: [4, 6], 3: [3, 4, 5], 4: [2, 3, 4, 5], 5: [2, 3, 4, 5, 6]},
+            'thorough': {1: [11], 2: [5, 9], 3: [4, 5, 7], 4: [3, 4, 5, 6], 5: [2, 3, 4, 5, 6]}}[tier][d]
+    r = rot % d
+    s1 = base[r:] + base[:r]
+    return [tuple(s1), tuple(s1[::-1])] if d > 1 else [tuple(s1)]
+
+def case_layout(chk, ctx, name, fs, grids, phi, layout, do_k=False, kinds=None):
+    """one of the 17 functions on an array with the entries of `phi` in memory layout `layout`: same result, bit for bit, as on
+    a C-contiguous copy; argument treated as documented; then the clauses of the property (case_fn) on THAT result"""
+    d, dest = SPEC[name]
+    PM = ctx['dadi'].PhiManip
+    fn = getattr(PM, name)
+    grids = [np.asarray(g, dtype=float) for g in grids]
+    phi = np.asarray(phi, dtype=float)
+    inp = inp_fn(name, fs, grids, phi, layout)
+    tag = layout_tag(layout)
+    ref, rexc = call_impl(ctx, name, fs, grids, phi)
+    view, base = make_view(ctx, phi, layout)
+    base0 = base.copy()
+    gargs = [g.copy() for g in grids]
+    try:
+        ret = fn(view, *fs, *gargs); exc = None
+    except Exception as e:
+        ret = None; exc = e
+    out = None if ret is None else np.array(ret, dtype=float, copy=True)
+    chk.l3((name, 'layout', tag, tuple(phi.shape) if len(set(phi.shape)) > 1 else 'cube')); chk.stat('l3:layout')
+    chk.stat('layout_shape:' + ('rectangular' if len(set(phi.shape)) > 1 else 'cube'))
+    what_layout = '%s-dimensional density of shape %s given as %s' % (d, tuple(phi.shape), {
+        'reorder': 'the view returned by reorder_pops(.., %s)' % (list(layout[1]) if len(layout) > 1 else ''),
+        'strided': 'a strided view (every second entry of a larger array)', 'flipped': 'a view with negative strides',
+        'fortran': 'a Fortran-ordered array', 'contiguous': 'a C-contiguous array'}[layout[0]])
+    if any(not np.array_equal(a, b) for a, b in zip(gargs, grids)):
+        chk.fail('input_modified:%s:grid' % name, '%s modifies a grid it was given' % name, inp)
+    if (exc is None) != (rexc is None) or (exc is not None and type(exc) is not type(rexc)):
+        chk.fail('layout:%s:raises' % name, '%s on a %s: %s, but on a C-contiguous copy: %s'
+                 % (name, what_layout, 'raises %r' % (exc,) if exc is not None else 'returns', 'raises %r' % (rexc,) if rexc is not None else 'returns'), inp)
+    elif exc is None:
+        if not same_bits(out, ref):
+            e_ = float(np.max(np.abs(out - ref))) if out.shape == ref.shape else float('inf')
+            unchanged = out.shape == phi.shape and np.array_equal(out, phi)
+            chk.fail('layout:%s:differs' % name, '%s on a %s returns something else than on a C-contiguous copy of the same density: max difference %.3g%s'
+                     % (name, what_layout, e_, ' (the density is returned unchanged: the call did nothing)' if unchanged and not np.array_equal(ref, phi) else ''), inp)
+        outside = np.ones(base.shape, dtype=bool)
+        if layout[0] == 'strided':
+            outside[tuple(slice(1, None, 2) for _ in range(d))] = False
+            if not np.array_equal(base[outside], base0[outside]):
+                chk.fail('inplace:%s:outside_view' % name, '%s writes to memory outside the view it was given (%s)' % (name, what_layout), inp)
+        if dest is not None and documented_inplace(fn):
+            # "Alters phi in place and returns the new version."
+            altered = same_bits(view, ref); returned = same_bits(out, ref)
+            if not (altered and returned):
+                how = ('neither alters the array it was given nor returns the new version' if not altered and not returned else
+                       'returns the new version but leaves the array it was given %s' % ('untouched' if np.array_equal(view, phi) else 'half-updated') if returned else
+                       'alters the array it was given but returns something else')
+                chk.fail('inplace:%s' % name, '%s is documented "Alters phi in place and returns the new version"; on a %s it %s' % (name, what_layout, how), inp)
+            chk.stat('l3:inplace_as_documented')
+        else:
+            # constructors ("A new .. phi array") and pulses no longer documented in place: the argument must not change
+            if not (np.array_equal(view, phi) and np.array_equal(base, base0)):
+                chk.fail('input_modified:%s' % name, '%s is not documented to work in place but modifies its argument (%s)' % (name, what_layout), inp)
+            if ret is not None and np.shares_memory(np.asarray(ret), base):
+                chk.fail('input_modified:%s:aliased' % name, '%s is documented to return a NEW array but the result shares memory with the argument' % name, inp)
+            chk.stat('l3:argument_untouched')
+    if do_k and layout[0] != 'contiguous':
+        case_view_k(chk, ctx, name, fs, grids, phi, layout)
+    case_fn(chk, ctx, name, fs, grids, phi, do_k=(do_k and layout[0] == 'contiguous'), kinds=kinds,
+            layout=(None if layout[0] == 'contiguous' else layout), pre=(out, exc))
+
+def memory_of(view, base):
+    """(flat memory of `base` in address order, offset and strides of `view` in elements)"""
+    item = base.itemsize
+    if base.flags['C_CONTIGUOUS']:
+        mem = base.reshape(-1)
+    elif base.flags['F_CONTIGUOUS']:
+        mem = base.T.reshape(-1)
+    else:
+        raise ValueError('base is not contiguous')
+    assert np.shares_memory(mem, base)
+    off = (view.__array_interface__['data'][0] - base.__array_interface__['data'][0]) // item
+    return mem, int(off), [int(st // item) for st in view.strides]
+
+def case_view_k(chk, ctx, name, fs, grids, phi, layout):
+    """K on the array OBJECT: the flat memory before, offset / strides / shape of the view -> the model's `applyInPlace`
+    (stores through the view as the generated memRows / loopRows say) against the memory after the real call and what it returns"""
+    driver = ctx['driver']
+    if driver is None or not driver.ok():
+        return
+    d, dest = SPEC[name]
+    PM = ctx['dadi'].PhiManip
+    if 8e-16 * max(grid_condition(g) for g in grids) > 0.1 * RTOL_K:
+        chk.k_skipped += 1; chk.stat('k:skipped_illconditioned_grid'); return
+    view, base = make_view(ctx, phi, layout)
+    mem, off, strides = memory_of(view, base)
+    if mem.size * view.size > 1500000:
+        chk.k_skipped += 1; chk.stat('k:skipped_large_memory'); return
+    mem0 = mem.copy()
+    inp = inp_fn(name, fs, grids, phi, layout)
+    try:
+        ret = getattr(PM, name)(view, *fs, *[np.array(g, dtype=float) for g in grids]); exc = None
+        out = np.array(ret, dtype=float, copy=True)
+    except Exception as e:
+        exc = e; out = None
+    ans = driver.ask('c06 fnview %s %s %s %d %s %s %s' % (name, fmt_list(fs), fmt_grids(grids), off, ','.join(str(x) for x in strides),
+                                                      ','.join(str(int(n)) for n in view.shape), fmt_nd(mem0)))
+    op = 'view:' + name
+    chk.stat('k:view:' + layout[0])
+    if exc is not None:
+        good = isinstance(exc, ValueError) and 'non-sensible' in str(exc) and ans == 'err raises'
+        (chk.k_ok(op + ':raises') if good else chk.k_bad(op, inp, 'raises %r' % (exc,), ans[:200], None))
+        return
+    if not ans.startswith('ok '):
+        chk.k_bad(op, inp, 'returns an array of shape %s' % (out.shape,), ans[:200], None); return
+    if not (np.all(np.isfinite(out)) and np.all(np.isfinite(mem))):
+        chk.k_skipped += 1; return
+    t = ans.split(' ')
+    mo, _ = parse_nd(t[1]); mm, _ = parse_nd(t[2])
+    ok1, e1, sc1 = close(out, mo, RTOL_K)
+    # the memory outside the view holds SENTINEL (exact on both sides): measure everything on the scale of the density
+    sc2 = sc1
+    e2 = float(np.max(np.abs(mem - mm))) if mem.shape == mm.shape else float('inf')
+    ok2 = e2 <= RTOL_K * (sc1 or 1.0)
+    if ok1 and ok2:
+        chk.k_ok(op)
+    else:
+        chk.k_bad(op, inp, 'returned array: max|impl-model| = %.3g; memory afterwards: max|impl-model| = %.3g (%d of %d cells differ)'
+                  % (e1, e2, int(np.sum(~np.isclose(mem, mm, rtol=1e-9, atol=1e-9 * (sc2 or 1.0)))) if mem.shape == mm.shape else -1, mem.size),
+                  'scale %.3g / %.3g' % (sc1, sc2), max(e1, e2))
+
+def case_inplace_contiguous(chk, ctx, name, fs, grids, phi):
+    """the in-place / new-array promise of the docstring on an ordinary C-contiguous argument"""
+    case_layout(chk, ctx, name, fs, grids, phi, ('contiguous',), do_k=False)
+
+def perm_fn_args(name, fs, grids, neworder):
+    """the call that is equivalent, on the ORIGINAL population order, to `name(reorder_pops(phi, neworder), fs, grids')` where
+    grids'[k] = grids[neworder[k]-1]: new population k is old population neworder[k]"""
+    d, dest = SPEC[name]
+    p = [int(x) - 1 for x in neworder]
+    odest = p[dest]
+    name2 = PULSE_BY[(d, odest)]
+    newsrc = [k for k in range(d) if k != dest]
+    prop_of_old = dict((p[k], fs[i]) for i, k in enumerate(newsrc))
+    fs2 = [prop_of_old[m] for m in range(d) if m != odest]
+    return name2, fs2
+
+def case_pulse_reorder(chk, ctx, name, rng, tier, neworder, shape):
+    """L3, multi-step: a pulse commutes with the axis permutation — reorder_pops then the pulse into (new) population k is
+    reorder_pops of the pulse into the old population that became k, same proportions per population (implementation on both sides)"""
+    d, dest = SPEC[name]
+    PM = ctx['dadi'].PhiManip
+    grids0, _ = gen_grids(rng, shape, 'distinct', d)
+    phi = gen.density(rng, shape)
+    fs, _ = gen_props(rng, d - 1, 'interior')
+    p = [int(x) - 1 for x in neworder]
+    gridsA = [grids0[p[k]] for k in range(d)]
+    inp = inp_fn(name, fs, gridsA, phi.transpose(p), ('reorder', list(neworder)))
+    chk.l3((name, 'pulse_reorder_comm', tuple(neworder))); chk.stat('l3:pulse_reorder_comm')
+    try:
+        A = PM.reorder_pops(phi.copy(), list(neworder))
+        lhs = np.array(getattr(PM, name)(A, *fs, *gridsA), copy=True)
+    except Exception as e:
+        chk.fail('pulse_marginal:%s:view:raises:%s' % (name, type(e).__name__), 'reorder_pops(.., %r) followed by %s raises %r' % (list(neworder), name, e), inp)
+        return
+    name2, fs2 = perm_fn_args(name, fs, grids0, neworder)
+    rhs0, exc2 = call_impl(ctx, name2, fs2, grids0, phi)
+    if exc2 is not None:
+        chk.fail('pulse_marginal:%s:raises:%s' % (name2, type(exc2).__name__), '%s raises %r on valid arguments' % (name2, exc2), inp_fn(name2, fs2, grids0, phi)); return
+    rhs = rhs0.transpose(p)
+    err = float(np.max(np.abs(lhs - rhs))) if lhs.shape == rhs.shape else float('inf')
+    sc = float(np.max(np.abs(rhs))) or 1.0
+    if not err <= 1e-10 * sc:
+        chk.fail('pulse_reorder_comm:%s' % name, 'reorder_pops(phi, %r) followed by %s differs from %s followed by reorder_pops(.., %r): %.3g (scale %.3g)'
+                 % (list(neworder), name, name2, list(neworder), err, sc), inp)
+
+def case_remove_layout(chk, ctx, grids, phi, layout):
+    """remove_pop of every population of a density given in another memory layout, own grid per population"""
+    PM = ctx['dadi'].PhiManip
+    phi = np.asarray(phi, dtype=float); d = phi.ndim
+    for pop in range(1, d + 1):
+        xx = np.asarray(grids[pop - 1], dtype=float)
+        inp = dict(op='remove', popnum=pop, grid=xx.tolist(), shape=list(phi.shape), phi=phi.ravel().tolist(), layout=layout_json(layout))
+        view, base = make_view(ctx, phi, layout); base0 = base.copy()
+        chk.l3(('remove_pop', 'layout', layout_tag(layout), d, pop)); chk.stat('l3:layout'); chk.stat('fn:remove_pop')
+        try:
+            ret = PM.remove_pop(view, xx, pop)
+            ref = np.asarray(PM.remove_pop(phi.copy(), xx, pop))
+        except Exception as e:
+            chk.fail('remove:remove_pop:view:raises:%s' % type(e).__name__, 'remove_pop raises %r on a %s density' % (e, layout_tag(layout)), inp); continue
+        out = np.asarray(ret)
+        exp = integrate_out(phi, xx, pop - 1)
+        sc = float(np.max(np.abs(phi))) or 1.0
+        # numpy.sum blocks its additions according to the memory order: agreement to a few ulp, not bit for bit
+        if out.shape != exp.shape or not float(np.max(np.abs(out - ref), initial=0.0)) <= 1e-14 * sc:
+            chk.fail('layout:remove_pop:differs', 'remove_pop(popnum=%d) on a %s density differs from the same call on a C-contiguous copy' % (pop, layout_tag(layout)), inp); continue
+        if not float(np.max(np.abs(out - exp), initial=0.0)) <= 1e-12 * sc:
+            chk.fail('remove:remove_pop:view', 'remove_pop(popnum=%d) on a %s density is not the trapezoid marginalisation of that axis' % (pop, layout_tag(layout)), inp)
+        if not np.array_equal(base, base0):
+            chk.fail('input_modified:remove_pop', 'remove_pop modifies its argument (%s)' % layout_tag(layout), inp)
+        if out.ndim and np.shares_memory(out, base):
+            chk.fail('input_modified:remove_pop:aliased', 'remove_pop is documented to return a new phi but the result shares memory with the argument', inp)
+
+def case_filter_layout(chk, ctx, xx, phi, tokeep, layout):
+    PM = ctx['dadi'].PhiManip
+    phi = np.asarray(phi, dtype=float); d = phi.ndim; xx = np.asarray(xx, dtype=float)
+    inp = dict(op='filter', tokeep=[int(t) for t in tokeep], grid=xx.tolist(), shape=list(phi.shape), phi=phi.ravel().tolist(), layout=layout_json(layout))
+    view, base = make_view(ctx, phi, layout); base0 = base.copy()
+    chk.l3(('filter_pops', 'layout', layout_tag(layout), d, len(tokeep))); chk.stat('l3:layout'); chk.stat('fn:filter_pops')
+    try:
+        out = np.asarray(PM.filter_pops(view, xx, list(tokeep)))
+    except Exception as e:
+        chk.fail('remove:filter_pops:view:raises:%s' % type(e).__name__, 'filter_pops raises %r on a %s density' % (e, layout_tag(layout)), inp); return
+    exp = phi
+    for ax in sorted([k for k in range(d) if k + 1 not in tokeep], reverse=True):
+        exp = integrate_out(exp, xx, ax)
+    sc = float(np.max(np.abs(phi))) or 1.0
+    if out.shape != np.shape(exp) or not float(np.max(np.abs(out - exp), initial=0.0)) <= 1e-12 * sc:
+        chk.fail('remove:filter_pops:view', 'filter_pops(tokeep=%r) on a %s density is not the marginalisation over the other populations' % (list(tokeep), layout_tag(layout)), inp)
+    if not np.array_equal(base, base0):
+        chk.fail('input_modified:filter_pops', 'filter_pops modifies its argument (%s)' % layout_tag(layout), inp)
+
+def case_reorder_layout(chk, ctx, phi, neworder, layout):
+    """reorder_pops of a density that is itself a view (two reorderings in a row, reordering of a slice): entries, inverse,
+    argument untouched"""
+    PM = ctx['dadi'].PhiManip
+    phi = np.asarray(phi, dtype=float); d = phi.ndim
+    inp = dict(op='reorder', neworder=[int(t) for t in neworder], shape=list(phi.shape), phi=phi.ravel().tolist(), layout=layout_json(layout))
+    view, base = make_view(ctx, phi, layout); base0 = base.copy()
+    chk.l3(('reorder_pops', 'layout', layout_tag(layout), d)); chk.stat('l3:layout'); chk.stat('fn:reorder_pops')
+    try:
+        out = np.asarray(PM.reorder_pops(view, list(neworder)))
+    except Exception as e:
+        chk.fail('reorder:raises', 'reorder_pops raises %r on a valid permutation of a %s density' % (e, layout_tag(layout)), inp); return
+    if out.shape != tuple(phi.shape[n - 1] for n in neworder) or not np.array_equal(out, phi.transpose([n - 1 for n in neworder])):
+        chk.fail('reorder:entries', 'reorder_pops(%r) of a %s density: entry of the input at i is not found at j[k] = i[neworder[k]-1]' % (list(neworder), layout_tag(layout)), inp); return
+    inv = [list(neworder).index(k + 1) + 1 for k in range(d)]
+    back = np.asarray(PM.reorder_pops(out, inv))
+    if back.shape != phi.shape or not np.array_equal(back, phi):
+        chk.fail('reorder:inverse', 'reordering by %r and then by its inverse %r does not restore phi (%s)' % (list(neworder), inv, layout_tag(layout)), inp)
+    if not np.array_equal(base, base0):
+        chk.fail('input_modified:reorder_pops', 'reorder_pops modifies its argument', inp)
+    if np.shares_memory(out, base):
+        chk.stat('note:reorder_pops_returns_a_view_of_its_argument')
+
+def case_split_layout(chk, ctx, xx, phi, layout):
+    """phi_1D_to_2D (1-D) / phi_2D_to_3D_split_1, _2 (2-D) on a density AND a grid given as non-contiguous views"""
+    PM = ctx['dadi'].PhiManip
+    phi = np.asarray(phi, dtype=float); xx = np.asarray(xx, dtype=float)
+    view, base = make_view(ctx, phi, layout); base0 = base.copy()
+    gview, gbase = make_view(ctx, xx, ('flipped',) if layout[0] == 'flipped' else ('contiguous',) if layout[0] == 'contiguous' else ('strided',)); gbase0 = gbase.copy()
+    names = ['phi_1D_to_2D'] if phi.ndim == 1 else ['phi_2D_to_3D_split_1', 'phi_2D_to_3D_split_2']
+    for name in names:
+        inp = (dict(op='split1', grid=xx.tolist(), phi=phi.tolist()) if phi.ndim == 1 else
+               dict(op='split2', which=int(name[-1]), grid=xx.tolist(), shape=list(phi.shape), phi=phi.ravel().tolist()))
+        inp['layout'] = layout_json(layout)
+        chk.l3((name, 'layout', layout_tag(layout))); chk.stat('l3:layout'); chk.stat('fn:' + name)
+        try:
+            out = np.asarray(getattr(PM, name)(gview, view))
+            ref = np.asarray(getattr(PM, name)(xx.copy(), phi.copy()))
+        except Exception as e:
+            chk.fail('split_copy:%s:view:raises:%s' % (name, type(e).__name__), '%s raises %r on a %s density' % (name, e, layout_tag(layout)), inp); continue
+        if not same_bits(out, ref):
+            chk.fail('layout:%s:differs' % name, '%s on a %s density / grid differs from the same call on C-contiguous copies' % (name, layout_tag(layout)), inp)
+        if not (np.array_equal(base, base0) and np.array_equal(gbase, gbase0)):
+            chk.fail('input_modified:%s' % name, '%s modifies its arguments (%s)' % (name, layout_tag(layout)), inp)
+        if np.shares_memory(out, base):
+            chk.fail('input_modified:%s:aliased' % name, '%s is documented to return a new array but the result shares memory with the argument' % name, inp)
+    # the clauses (copy of the parent, marginal) on contiguous copies of the same numbers are evaluated by case_split1d / case_split2
+
+def spike_cells(rng, shape, dest):
+    """point densities: one in the LAST line of every non-destination population (the lines a loop bound taken from the wrong,
+    shorter axis never reaches) with the destination away from its last grid point, one anywhere"""
+    last = tuple((int(rng.integers(0, max(1, n - 1))) if m == dest else n - 1) for m, n in enumerate(shape))
+    return [last, tuple(int(rng.integers(n)) for n in shape)]
+
+def prop_kinds_for(i):
+    return ['zero', 'vertex', 'sum1', 'face', 'dyadic', 'tiny'][i % 6]
+
+def round6_cases(chk, ctx, rng, tier):
+    names = [n for n, _ in CONSTRUCTORS] + [p[0] for p in PULSES]
+    rot = int(rng.integers(0, 5))
+    for fi, name in enumerate(names):
+        d, dest = SPEC[name]
+        ngr = d if dest is not None else d + 1
+        layouts = all_layouts(d, rng)
+        klay = (0, 1 + (fi + rot) % (len(layouts) - 1))       # quick: K on the array object for the Fortran-order view and one more layout
+        for si, shape in enumerate(rect_shapes(d, tier, rot)):
+            grids, gk = gen_grids(rng, shape, 'distinct', ngr)
+            phi = gen.density(rng, shape)
+            fs, _ = gen_props(rng, d - 1, 'interior')
+            # the docstring's promise about the argument, and the rectangular shape, on an ordinary array first
+            case_layout(chk, ctx, name, fs, grids, phi, ('contiguous',), do_k=(si == 0), kinds=dict(props='interior'))
+            if dest is not None:
+                case_spike(chk, ctx, name, fs, grids, shape, spike_cells(rng, shape, dest))
+            for li, layout in enumerate(layouts):
+                case_layout(chk, ctx, name, fs, grids, phi, layout, do_k=(si == 0 and (li in klay or tier != 'quick')), kinds=dict(props='interior'))
+                if dest is not None:
+                    case_spike(chk, ctx, name, fs, grids, shape, spike_cells(rng, shape, dest), layout=layout)
+                if si == 0:
+                    # the other clauses on the same layout: identity at 0, a vertex / a face / the far face of the simplex, ..
+                    pk = prop_kinds_for(li + rot)
+                    f2, _ = gen_props(rng, d - 1, pk)
+                    chk.stat('props:' + pk)
+                    case_layout(chk, ctx, name, f2, grids, phi, layout, do_k=False, kinds=dict(props=pk))
+            if si == 0:
+                for pk in ('zero', 'vertex'):
+                    f2, _ = gen_props(rng, d - 1, pk)
+                    case_layout(chk, ctx, name, f2, grids, phi, layouts[(rot + len(pk)) % len(layouts)], do_k=False, kinds=dict(props=pk))
+                fb, bk = gen_bad_props(rng, d - 1)
+                case_layout(chk, ctx, name, fb, grids, phi, layouts[rot % len(layouts)], do_k=False, kinds=dict(props='bad:' + bk))
+        # one grid for all populations (how dadi itself calls them), cube, every layout
+        lo, hi = SIZES[tier][d]
+        n = int(rng.integers(max(lo, 3), hi + 1))
+        g, _ = gen_grid(rng, n)
+        phi = gen.density(rng, (n,) * d)
+        fs, _ = gen_props(rng, d - 1, 'interior')
+        for layout in layouts:
+            case_layout(chk, ctx, name, fs, [g] * ngr, phi, layout, do_k=False, kinds=dict(props='interior'))
+        if dest is not None:
+            shapes = rect_shapes(d, tier, rot + 1)
+            for pi_, neworder in enumerate(perm_layouts(d, rng)):
+                case_pulse_reorder(chk, ctx, name, rng, tier, neworder, shapes[pi_ % len(shapes)])
+    # remove / filter / reorder / splits
+    for d in (1, 2, 3, 4, 5):
+        layouts = [('contiguous',)] + all_layouts(d, rng)        # the ordinary array too: "Returns new phi" = the argument is not modified
+        for shape in rect_shapes(d, tier, rot):
+            grids, _ = gen_grids(rng, shape, 'distinct', d)
+            phi = gen.density(rng, shape)
+            for layout in layouts:
+                case_remove_layout(chk, ctx, grids, phi, layout)
+                if d >= 2:
+                    case_reorder_layout(chk, ctx, phi, perm_layouts(d, rng)[int(rng.integers(len(perm_layouts(d))))], layout)
+        if d >= 2:
+            # filter_pops has ONE grid for all removed populations: the kept ones get other extents
+            lo, hi = SIZES[tier][d]
+            n = int(rng.integers(max(lo, 3), hi + 1)); xx, _ = gen_grid(rng, n)
+            for layout in layouts:
+                k = int(rng.integers(1, d)); keep = sorted(int(t) + 1 for t in rng.choice(d, size=k, replace=False))
+                if rng.random() < 0.5: keep = keep[::-1]
+                shape = tuple((n + 1 + a) if (a + 1) in keep else n for a in range(d))
+                case_filter_layout(chk, ctx, xx, gen.density(rng, shape), keep, layout)
+    for d in (1, 2):
+        lo, hi = SIZES[tier][d]
+        n = int(rng.integers(max(lo, 4), hi + 1)); xx, _ = gen_grid(rng, n)
+        for layout in [('contiguous',)] + all_layouts(d):
+            case_split_layout(chk, ctx, xx, gen.density(rng, (n,) * d), layout)
+
 # ------------------------------------------------------------------------------------------ drivers of the check
 def gen_case(rng, name, tier, mode=None, pkind=None, bad=False):
     d, dest = SPEC[name]
@@ -935,19 +1389,25 @@ def run(chk, ctx):
                 'numpy.float64 (different `sum` algorithms); tenths vectors whose float remainder puts the all-fixed corner one ulp above the last grid point; '
                 'pulse with one source proportion 0 followed by removal of that source vs removal followed by the lower-dimensional pulse; two pulses in a row; '
                 'total mass before/after every call; exact binary64 rounding of random / midpoint rationals; '
-                'non-trivial = distinct (function, grid mode, proportion kind, sum>1, sum=1, all zero)'
+                'round 6: every function on densities given as views returned by reorder_pops (Fortran order, rotations, adjacent swaps, one random '
+                'permutation), strided (every second entry of a larger array), reversed, Fortran-ordered and C-contiguous arrays, pairwise different '
+                'extents per population (two opposite orders) with own grids and cubes with one grid, interior / zero / vertex / face / sum-1 / '
+                'above-1 proportions per layout, point densities in the last line of every spectator population; '
+                'non-trivial = distinct (function, grid mode, proportion kind, sum>1, sum=1, all zero, memory layout)'
                 % (SIZES['quick'], SIZES['thorough']))
     chk.unproved = [
         'floating-point round-off of the ARRAY arithmetic is not modelled: the conservation / mass / mixture theorems are about exact rational arithmetic on the generated formulas (C06_deposit_clamped covers what the clamps do when round-off pushes a mixed frequency past the ends of the grid); the float implementation is compared with the exact model at 1e-9 (K) and the identities are evaluated on the implementation at 1e-11 (L3)',
         'the float proportion guard IS modelled (Gen.Admix.guardsFl, C06_simplex_accept_float / C06_simplex_reject_float) under the stated assumptions RoundNearest / RoundEFT on the rounding operator; that IEEE binary64 round-to-nearest-even satisfies them is not proved in Lean: the model\'s rndDouble and its two `sum` algorithms are compared exactly with the machine (K: rndDouble, builtin_sum, float_guard)',
         'numpy fancy indexing / broadcasting of the 17 functions: translated (T) are the loop nest, scratch allocation, row index, fill order and operators, trapz axis, write-back axis (Gen.Admix.loopRows, consumed by the model, C06_loops / C06_loops_apply), the per-cell program, coefficient vectors, guards, grid arguments, Numerics.trapz summand, phi_1D_to_2D diagonal; that numpy executes these statements as the model reads them is tied by correspondence (K)',
         'numpy.searchsorted is modelled as "first index whose entry is >= v" (side=left; side=right is translated too); unsorted grids are outside the domain',
-        'filter_pops: proved are total mass, remove_pop = weighted sum, two removals commute; that the iteration over sorted(toremove)[::-1] marginalises exactly the complement of tokeep is K/L3-validated',
+        'memory layouts (round 6): the model reads and writes the argument through `View.addr` = offset + Σ index·stride; that numpy\'s basic indexing `phi[i, j, :] = line` addresses memory that way for every layout, and that what the source does to its argument is what Gen.Admix.memRows records (aliases through calls of other functions are not followed), is tied by correspondence (K: fnview compares the whole memory after the call) and by the L3 comparison with the call on a C-contiguous copy; views whose entries overlap in memory (stride 0) are outside the domain',
+        'filter_pops: C06_filter proves that the iteration over sorted(toremove)[::-1] marginalises exactly the complement of tokeep (its specification margMask is recursive); that the source is that iteration is a structure flag of the translator plus K/L3',
     ]
     ctx['chk'] = chk
     edge_cases(chk, ctx, rng, tier)
     splits_and_bookkeeping(chk, ctx, rng, tier)
     round4_cases(chk, ctx, rng, tier)
+    round6_cases(chk, ctx, rng, tier)
     for rep in range(4 if tier == 'quick' else 20):
         case_cells(chk, ctx, rng, 24)
     for rep in range(4 if tier == 'quick' else 150):
@@ -961,8 +1421,29 @@ def replay(chk, ctx, data):
     inp = data.get('input') or {}
     op = inp.get('op')
     ctx['chk'] = chk
-    if op == 'fn' and (str(data.get('key', '')).startswith('pulse_remove_comm') or str(data.get('key', '')).endswith(':twice')):
+    key = str(data.get('key', ''))
+    lay = inp.get('layout')
+    if lay is not None:
+        lay = tuple([lay[0]] + [list(x) for x in lay[1:]])
+    if op == 'fn' and (key.startswith('pulse_remove_comm') or key.startswith('pulse_reorder_comm') or key.endswith(':twice')):
         run(chk, ctx)
+    elif op == 'fn' and lay is not None:
+        phi = np.array(inp['phi'], dtype=float).reshape(inp['shape'])
+        grids = [np.array(g, dtype=float) for g in inp['grids']]
+        case_layout(chk, ctx, inp['fn'], inp['fs'], grids, phi, lay, do_k=True)
+        nzc = np.argwhere(phi != 0)
+        if SPEC[inp['fn']][1] is not None and len(nzc) == 1:
+            case_spike(chk, ctx, inp['fn'], inp['fs'], grids, phi.shape, [tuple(int(c) for c in nzc[0])], layout=lay)
+    elif op in ('remove', 'filter', 'reorder', 'split1', 'split2') and lay is not None:
+        phi = np.array(inp['phi'], dtype=float).reshape(inp.get('shape', [len(inp['phi'])]))
+        if op == 'remove':
+            run(chk, ctx)           # needs the grids of all populations
+        elif op == 'filter':
+            case_filter_layout(chk, ctx, inp['grid'], phi, inp['tokeep'], lay)
+        elif op == 'reorder':
+            case_reorder_layout(chk, ctx, phi, inp['neworder'], lay)
+        else:
+            case_split_layout(chk, ctx, inp['grid'], phi, lay)
     elif op == 'fn':
         phi = np.array(inp['phi'], dtype=float).reshape(inp['shape'])
         kinds = dict(props='roundoff') if str(data.get('key', '')).endswith(':roundoff') else None
